@@ -498,11 +498,11 @@ fn c16(g: &mut Gen) {
             let c = Call { req: true, id: 1, nums: vec![0x34, 0, eid], lists: vec![] };
             for k in 0..2 { let b = poison(r, 14 + k, k as u64 + 1); s.op(enc_op(&c, b)); }
         }
-        for n in [6usize, 7, 8, 9] {
+        for n in [6usize, 7, 8, 9, 31, 32, 63, 64, 65, 71, 72, 127, 128, 135, 192, 199, 255, 256, 257] {
             let c = Call { req: true, id: 9, nums: vec![0x34], lists: (0..n).map(|_| r.bytes(4)).collect() };
-            for k in 0..2 { let b = poison(r, 13 + 4 * n + k, k as u64 + 1); s.op(enc_op(&c, b)); }
+            for k in 0..2 { let b = poison(r, (13 + 4 * n + k).min(300), k as u64 + 1); s.op(enc_op(&c, b)); }
         }
-        for n in [29usize, 30, 31, 32] {
+        for n in [29usize, 30, 31, 32, 33, 64, 255, 256, 257, 286] {
             let c = Call { req: false, id: 5, nums: vec![0, 0x34], lists: vec![r.bytes(n)] };
             for k in 0..2 { let b = poison(r, 14 + n + k, k as u64 + 1); s.op(enc_op(&c, b)); }
         }
@@ -914,7 +914,18 @@ fn c11(g: &mut Gen) {
 // ------------------------------------------------------------------------------------------------ requests
 /// a well-formed control request from requester `src` (address = EID), built without the library
 fn request(src: u8, inst: u8, cmd: u8, data: &[u8], r: &mut Rng) -> Vec<u8> {
-    build_packet(r.below(128) as u8, src, 1, r.byte(), src, if r.chance(3, 4) { 0xC8 } else { 0xC0 | r.below(16) as u8 }, 0, &ctl_body(true, false, false, inst, cmd, None, data))
+    // legal header bits the library's own encoders never produce: datagram bit, reserved bit, any flags byte,
+    // SMBus destination R/W bit set, SMBus source low bit clear, a byte count that does not match
+    let d = r.chance(1, 6);
+    let rs = r.chance(1, 8);
+    let flags = if r.chance(2, 3) { 0xC8 } else { r.byte() };
+    let mut p = build_packet(r.below(128) as u8, src, 1, r.byte(), src, flags, 0, &ctl_body(true, d, rs, inst, cmd, None, data));
+    let mut touched = false;
+    if r.chance(1, 8) { p[3] &= 0xFE; touched = true; }
+    if r.chance(1, 10) { p[0] |= 1; touched = true; }
+    if r.chance(1, 10) { p[2] = r.byte(); touched = true; }
+    if touched { let l = p.len(); let c = crc8(&p[..l - 1]); p[l - 1] = c; }
+    p
 }
 
 fn answerable_request(nvend: usize, cmd: u8, src: u8, inst: u8, r: &mut Rng) -> Vec<u8> {
@@ -999,7 +1010,7 @@ fn history(s: &mut Session, len: usize, r: &mut Rng) {
             13 => { let p = any_packet(s, r); s.op(Op::Decode(p)); }
             14 => { let p = any_packet(s, r); s.op(Op::GetLength(p)); }
             15 => { s.op(Op::SetEid(r.chance(1, 2), r.cbyte())); }
-            16 => { let u = r.bytes(16); s.op(Op::SetUuid(u)); }
+            16 => { let u = r.uuid(); s.op(Op::SetUuid(u)); }
             17 => { // responses (never answered)
                 let cmd = 1 + r.below(6) as u8;
                 let dl = fixed_resp_len(cmd).unwrap_or(2);
@@ -1099,7 +1110,7 @@ fn c15(g: &mut Gen) {
             g.case("ident", &cfg, |s, r| {
                 for _ in 0..(1 + r.below(4)) {
                     if r.chance(1, 2) { history(s, r.below(6) as usize, r); }
-                    if r.chance(2, 3) { let u = r.bytes(16); s.op(Op::SetUuid(u)); }
+                    if r.chance(2, 3) { let u = r.uuid(); s.op(Op::SetUuid(u)); }
                     for cmd in [5u8, 3, 4] {
                         let p = answerable_request(s.nvend, cmd, r.below(128) as u8, r.below(32) as u8, r);
                         let b = pbuf(r, 64, 29); s.op(Op::Process(p, b));
